@@ -66,14 +66,94 @@ Lemma filter_map_swap : forall {A B} (f : A -> B) (p : B -> bool) l,
   filter p (map f l) = map f (filter (fun a => p (f a)) l).
 Proof. induction l; cbn [map filter]; [reflexivity|]. destruct (p (f a)); cbn [map]; now rewrite IHl. Qed.
 
+Section OACount.
+Variable lg : N.
+Definition size : N := 2 ^ lg.
+Definition has_empty (tab : arr) : Prop := exists i, i < size /\ aget tab i = 0.
+
+(* ---------- the stored entries ---------- *)
+Definition entries (tab : arr) : list N := filter nonzero (acells tab size).
+Definition oa_count (tab : arr) : N := count_regs size (fun i => nonzero (aget tab i)).
+
+Lemma entries_In : forall tab e, In e (entries tab) <-> e <> 0 /\ exists i, i < size /\ aget tab i = e.
+Proof.
+  intros. unfold entries, acells. rewrite filter_In, in_map_iff. unfold nonzero. split.
+  - intros ((i & Hi & Hin) & Hnz). split; [lia|]. exists i. split; [now apply Nseq_range_In|assumption].
+  - intros (Hnz & i & Hi & Hg). split; [|lia]. exists i. split; [assumption|now apply Nseq_range_In].
+Qed.
+
+Lemma entries_length : forall tab, N.of_nat (length (entries tab)) = oa_count tab.
+Proof. intros. unfold entries, acells, oa_count, count_regs. now rewrite filter_map_len. Qed.
+
+Lemma entries_empty : entries aempty = [].
+Proof.
+  unfold entries, acells. induction (Nseq 0 (N.to_nat size)); [reflexivity|].
+  cbn [map filter]. rewrite aget_empty. cbn. assumption.
+Qed.
+
+Lemma oa_count_insert : forall tab i e, i < size -> aget tab i = 0 -> e <> 0 ->
+  oa_count (aset tab i e) = oa_count tab + 1.
+Proof.
+  intros tab i e Hi Hz Hne. unfold oa_count.
+  pose proof (count_regs_change size (fun j => nonzero (aget tab j)) (fun j => nonzero (aget (aset tab i e) j)) i Hi) as H.
+  cbv beta in H. rewrite aget_aset_same, Hz in H.
+  assert (E1 : nonzero e = true) by (unfold nonzero; lia).
+  assert (E2 : nonzero 0 = false) by reflexivity.
+  rewrite E1, E2 in H.
+  specialize (H ltac:(intros j _ Hj; now rewrite aget_aset_other by congruence)). lia.
+Qed.
+
+Lemma oa_count_replace : forall tab i e, i < size -> aget tab i <> 0 -> e <> 0 ->
+  oa_count (aset tab i e) = oa_count tab.
+Proof.
+  intros tab i e Hi Hz Hne. unfold oa_count.
+  pose proof (count_regs_change size (fun j => nonzero (aget tab j)) (fun j => nonzero (aget (aset tab i e) j)) i Hi) as H.
+  cbv beta in H. rewrite aget_aset_same in H.
+  assert (E1 : nonzero e = true) by (unfold nonzero; lia).
+  assert (E2 : nonzero (aget tab i) = true) by (unfold nonzero; lia).
+  rewrite E1, E2 in H.
+  specialize (H ltac:(intros j _ Hj; now rewrite aget_aset_other by congruence)). lia.
+Qed.
+
+Lemma has_empty_of_count : forall tab, oa_count tab < size -> has_empty tab.
+Proof.
+  intros tab H. destruct (forallb (fun i => nonzero (aget tab i)) (Nseq 0 (N.to_nat size))) eqn:E.
+  - exfalso. rewrite forallb_forall in E. unfold oa_count in H.
+    rewrite count_regs_all in H; [lia|]. intros j Hj. apply E. now apply Nseq_range_In.
+  - apply forallb_false_ex in E. destruct E as (i & Hi & Hz). exists i.
+    split; [now apply Nseq_range_In|]. unfold nonzero in Hz. lia.
+Qed.
+
+Lemma oa_count_empty : oa_count aempty = 0.
+Proof. rewrite <- entries_length, entries_empty. reflexivity. Qed.
+
+(* entries after writing cell i *)
+Lemma entries_aset_In : forall tab i e e', i < size ->
+  (In e' (entries (aset tab i e)) <->
+   (e' = e /\ e <> 0) \/ (e' <> 0 /\ exists j, j < size /\ j <> i /\ aget tab j = e')).
+Proof.
+  intros tab i e e' Hi. rewrite entries_In. split.
+  - intros (Hnz & j & Hj & Hg). rewrite aget_aset in Hg. destruct (N.eqb_spec i j).
+    + left. split; congruence.
+    + right. split; [assumption|]. exists j. split; [assumption|]. split; [congruence|assumption].
+  - intros [[-> Hne]|(Hnz & j & Hj & Hji & Hg)].
+    + split; [assumption|]. exists i. split; [assumption|apply aget_aset_same].
+    + split; [assumption|]. exists j. split; [assumption|]. now rewrite aget_aset_other by congruence.
+Qed.
+
+End OACount.
+
 Section OA.
 Variable lg : N.
+Local Notation size := (size lg).
+Local Notation has_empty := (has_empty lg).
+Local Notation entries := (entries lg).
+Local Notation oa_count := (oa_count lg).
 Variable key : N -> N.
 Variable start stride : N -> N.
 Hypothesis start_lt : forall x, start x < 2 ^ lg.
 Hypothesis stride_odd : forall x, N.odd (stride x) = true.
 
-Definition size : N := 2 ^ lg.
 Definition pos (x n : N) : N := (start x + n * stride x) mod size.
 
 Lemma size_pos : 0 < size. Proof. apply pow2_pos. Qed.
@@ -95,8 +175,8 @@ Proof.
   { exists (b / size - a / size).
     pose proof (N.div_mod a size ltac:(lia)) as Ha. pose proof (N.div_mod b size ltac:(lia)) as Hb.
     assert (a / size <= b / size) by (apply N.div_le_mono; lia).
-    rewrite N.mul_sub_distr_r. Show. rewrite (N.mul_comm (b / size)), (N.mul_comm (a / size)).
-    set (qa := size * (a / size)) in *. set (qb := size * (b / size)) in *. lia. }
+    rewrite H in Ha. remember (a / size) as qa. remember (b / size) as qb. remember (b mod size) as r.
+    remember ((m - n) * stride x) as d. rewrite N.mul_sub_distr_r. nia. }
   apply (pow2_divide_odd _ (stride_odd x)) in Hdiv.
   destruct (N.eq_dec (m - n) 0) as [E|E]; [lia|].
   apply N.divide_pos_le in Hdiv; [|lia]. fold size in Hdiv. lia.
@@ -123,6 +203,9 @@ Proof.
   exists n. split; [now apply Nseq_range_In|assumption].
 Qed.
 
+Lemma land_size_mask : forall y, N.land y (size - 1) = y mod size.
+Proof. intros. unfold size. apply land_mask. Qed.
+
 (* ---------- the probe loop ---------- *)
 Definition probe (tab : arr) (x : N) (matches : N -> bool) : outcome (N * bool) :=
   oa_probe (N.to_nat size) tab (size - 1) (stride x) (start x) (start x) matches.
@@ -138,7 +221,7 @@ Lemma probe_run : forall tab x matches d n n1 fuel, n + d = n1 -> n1 < size ->
   = Ok (pos x n1, negb (aget tab (pos x n1) =? 0)).
 Proof.
   intros tab x matches d. induction d using N.peano_ind; intros n n1 fuel Hn Hlt Hpre Hstop Hfuel.
-  - assert (n = n1) by lia. subst n1. destruct fuel as [|f]; [lia|]. cbn [oa_probe].
+  - rewrite N.add_0_r in Hn. subst n1. destruct fuel as [|f]; [lia|]. cbn [oa_probe].
     destruct Hstop as [Hz|Hm].
     + rewrite Hz. reflexivity.
     + destruct (N.eqb_spec (aget tab (pos x n)) 0) as [E|E]; [reflexivity|]. now rewrite Hm.
@@ -147,13 +230,11 @@ Proof.
     unfold stops in Hns.
     destruct (N.eqb_spec (aget tab (pos x n)) 0) as [E|E]; [tauto|].
     destruct (matches (aget tab (pos x n))) eqn:Em; [tauto|].
-    rewrite land_mask. fold size. rewrite <- pos_succ.
+    rewrite land_size_mask. rewrite <- pos_succ.
     destruct (N.eqb_spec (pos x (n + 1)) (start x)) as [Es|Es].
     + exfalso. rewrite <- pos_0 in Es. apply pos_inj in Es; lia.
     + apply IHd; try lia; try assumption. intros m Hm1 Hm2. apply Hpre; lia.
 Qed.
-
-Definition has_empty (tab : arr) : Prop := exists i, i < size /\ aget tab i = 0.
 
 (* with an empty cell somewhere, the probe stops at the first position that is empty or matches *)
 Lemma probe_spec : forall tab x matches, has_empty tab ->
@@ -261,26 +342,6 @@ Proof.
       split; [assumption|]. rewrite Hk. now rewrite <- E in B.
 Qed.
 
-(* ---------- the stored entries ---------- *)
-Definition entries (tab : arr) : list N := filter nonzero (acells tab size).
-Definition oa_count (tab : arr) : N := count_regs size (fun i => nonzero (aget tab i)).
-
-Lemma entries_In : forall tab e, In e (entries tab) <-> e <> 0 /\ exists i, i < size /\ aget tab i = e.
-Proof.
-  intros. unfold entries, acells. rewrite filter_In, in_map_iff. unfold nonzero. split.
-  - intros ((i & Hi & Hin) & Hnz). split; [lia|]. exists i. split; [now apply Nseq_range_In|assumption].
-  - intros (Hnz & i & Hi & Hg). split; [|lia]. exists i. split; [assumption|now apply Nseq_range_In].
-Qed.
-
-Lemma entries_length : forall tab, N.of_nat (length (entries tab)) = oa_count tab.
-Proof. intros. unfold entries, acells, oa_count, count_regs. now rewrite filter_map_len. Qed.
-
-Lemma entries_empty : entries aempty = [].
-Proof.
-  unfold entries, acells. induction (Nseq 0 (N.to_nat size)); [reflexivity|].
-  cbn [map filter]. rewrite aget_empty. cbn. assumption.
-Qed.
-
 Lemma entries_NoDup_keys : forall tab, OAInv tab -> NoDup (map key (entries tab)).
 Proof.
   intros tab HI. unfold entries, acells. rewrite filter_map_swap, map_map.
@@ -289,52 +350,6 @@ Proof.
     destruct Ha as [Ha Na], Hb as [Hb Nb]. apply Nseq_range_In in Ha. apply Nseq_range_In in Hb.
     unfold nonzero in *. apply (OA_distinct tab); try assumption; lia.
   - apply NoDup_filter. apply Nseq_NoDup.
-Qed.
-
-Lemma oa_count_insert : forall tab i e, i < size -> aget tab i = 0 -> e <> 0 ->
-  oa_count (aset tab i e) = oa_count tab + 1.
-Proof.
-  intros tab i e Hi Hz Hne. unfold oa_count.
-  pose proof (count_regs_change size (fun j => nonzero (aget tab j)) (fun j => nonzero (aget (aset tab i e) j)) i Hi) as H.
-  cbv beta in H. rewrite aget_aset_same, Hz in H. unfold nonzero in H at 2 4.
-  specialize (H ltac:(intros j _ Hj; now rewrite aget_aset_other by congruence)).
-  replace (negb (e =? 0)) with true in H by lia. cbn in H. lia.
-Qed.
-
-Lemma oa_count_replace : forall tab i e, i < size -> aget tab i <> 0 -> e <> 0 ->
-  oa_count (aset tab i e) = oa_count tab.
-Proof.
-  intros tab i e Hi Hz Hne. unfold oa_count.
-  pose proof (count_regs_change size (fun j => nonzero (aget tab j)) (fun j => nonzero (aget (aset tab i e) j)) i Hi) as H.
-  cbv beta in H. rewrite aget_aset_same in H. unfold nonzero in H at 2 4.
-  specialize (H ltac:(intros j _ Hj; now rewrite aget_aset_other by congruence)).
-  replace (negb (e =? 0)) with true in H by lia. replace (negb (aget tab i =? 0)) with true in H by lia. lia.
-Qed.
-
-Lemma has_empty_of_count : forall tab, oa_count tab < size -> has_empty tab.
-Proof.
-  intros tab H. destruct (forallb (fun i => nonzero (aget tab i)) (Nseq 0 (N.to_nat size))) eqn:E.
-  - exfalso. rewrite forallb_forall in E. unfold oa_count in H.
-    rewrite count_regs_all in H; [lia|]. intros j Hj. apply E. now apply Nseq_range_In.
-  - apply forallb_false_ex in E. destruct E as (i & Hi & Hz). exists i.
-    split; [now apply Nseq_range_In|]. unfold nonzero in Hz. lia.
-Qed.
-
-Lemma oa_count_empty : oa_count aempty = 0.
-Proof. rewrite <- entries_length, entries_empty. reflexivity. Qed.
-
-(* entries after writing cell i *)
-Lemma entries_aset_In : forall tab i e e', i < size ->
-  (In e' (entries (aset tab i e)) <->
-   (e' = e /\ e <> 0) \/ (e' <> 0 /\ exists j, j < size /\ j <> i /\ aget tab j = e')).
-Proof.
-  intros tab i e e' Hi. rewrite entries_In. split.
-  - intros (Hnz & j & Hj & Hg). rewrite aget_aset in Hg. destruct (N.eqb_spec i j).
-    + left. split; congruence.
-    + right. split; [assumption|]. exists j. split; [assumption|]. split; [congruence|assumption].
-  - intros [[-> Hne]|(Hnz & j & Hj & Hji & Hg)].
-    + split; [assumption|]. exists i. split; [assumption|apply aget_aset_same].
-    + split; [assumption|]. exists j. split; [assumption|]. now rewrite aget_aset_other by congruence.
 Qed.
 
 End OA.
